@@ -337,3 +337,130 @@ Proof.
   - repeat split; auto.
   - repeat split; try lia; try discriminate. intros Hp. exfalso. apply Hp. now apply B2.
 Qed.
+
+(* what a call may hand out *)
+Definition handed_ok (s : pstate) (e : nat) : Prop :=
+  exists u, nth_error (p_eps s) e = Some u
+            /\ u_failed u = false /\ u_dead u = false /\ u_closed u = false /\ u_conn_closes u = 0
+            /\ (gen_current s u || survives u) = true
+            /\ p_pool s (u_key u) = Some e.
+
+Lemma reuse_handed s e g u :
+  EI s -> nth_error (p_eps s) e = Some u -> p_pool s (u_key u) = Some e ->
+  u_failed u = false -> stale s u = false ->
+  handed_ok (fst (ep_reuse s e g u)) e.
+Proof.
+  intros H Hn Hp Hf Hst. unfold ep_reuse. cbn [fst].
+  set (s1 := set_ep s e (u_with_exp u (p_now s + nat_timeout))).
+  assert (Hn1 : nth_error (p_eps s1) e = Some (u_with_exp u (p_now s + nat_timeout))).
+  { unfold s1, set_ep, set_eps; cbn. rewrite nth_error_upd, Nat.eqb_refl, Hn. reflexivity. }
+  destruct (adopt_core_eps s1 e g) as (P&_&Ep&_&_&E).
+  destruct (E _ Hn1) as (u'&(K&F&C&D&N)&Se&Ge&Di&Eq).
+  destruct H as (A&B). destruct (A _ _ Hp) as (u0&H0&_&Hc&Hd). rewrite Hn in H0. inversion H0; subst u0.
+  destruct (B e u Hn) as (B1&_). rewrite Hf, Hc in B1.
+  exists u'. rewrite Eq, nth_error_upd, Nat.eqb_refl, Hn1. split; [reflexivity|].
+  cbn in K, F, C, D, N, Se, Ge, Di. rewrite F, D, C, N, K, P. repeat split; auto.
+  unfold stale in Hst. rewrite Hd in Hst. cbn in Hst.
+  unfold gen_current, survives in *. rewrite Ep, Ge, Di, Se. unfold s1; cbn.
+  destruct (u_gen u =? p_epoch s (u_dialer u)); cbn in *; auto. destruct (u_sent u); cbn in *; auto.
+Qed.
+
+Lemma create_handed s k d g out e :
+  r_ret (snd (ep_create s k d g out)) = Some e -> handed_ok (fst (ep_create s k d g out)) e.
+Proof.
+  unfold ep_create, handed_ok. destruct out as [|[|[|n]]]; cbn [fst snd r_ret p_eps p_pool]; try discriminate;
+    (intros H; inversion H; subst e; eexists; rewrite nth_error_app2 by lia; rewrite Nat.sub_diag; cbn;
+     split; [reflexivity|]; cbn; unfold gen_current, fset; cbn; rewrite !Nat.eqb_refl; repeat split).
+Qed.
+
+Lemma C13_never_resurrect_proof :
+  forall ops o e,
+    r_ret (snd (pstep (prun ops) o)) = Some e -> handed_ok (fst (pstep (prun ops) o)) e.
+Proof.
+  intros ops o e. pose proof (EI_prun ops) as H. set (s := prun ops) in *.
+  destruct o as [k d g out|h out|h t|d| | |dt]; cbn [pstep].
+  2:{ destruct (nth_error (p_handles s) h) as [e0|]; [|discriminate].
+      destruct (nth_error (p_eps s) e0) as [u|]; [|discriminate].
+      destruct (u_dead u); [discriminate|]. destruct ((0 <? u_conn_closes u) || (out =? 1)); discriminate. }
+  2:{ destruct (nth_error (p_handles s) h) as [e0|]; [|discriminate].
+      destruct (nth_error (p_eps s) e0) as [u|]; [|discriminate].
+      destruct (u_cs_closed u); discriminate. }
+  2-5: discriminate.
+  unfold ep_goc.
+  destruct (p_pool s k) as [e0|] eqn:Hk; [|apply create_handed].
+  destruct (nth_error (p_eps s) e0) as [u|] eqn:Hn; [|apply create_handed].
+  assert (Hku : u_key u = k).
+  { destruct H as (A&_). destruct (A k e0 Hk) as (u0&H0&H1&_). rewrite Hn in H0. inversion H0; subst. auto. }
+  destruct (u_failed u) eqn:Hf.
+  - destruct (is_expired u (p_now s)); [apply create_handed|discriminate].
+  - destruct (stale s u) eqn:Hst; [apply create_handed|].
+    unfold ep_reuse at 1. cbn [snd r_ret]. intros He; inversion He; subst e0.
+    apply reuse_handed; auto. now rewrite Hku.
+Qed.
+
+(* a key whose dial failed less than failure_ttl ago: error, no dial, nothing changes *)
+Lemma C13_failed_recently_proof :
+  forall s k d g out e u,
+    p_pool s k = Some e -> nth_error (p_eps s) e = Some u -> u_failed u = true -> is_expired u (p_now s) = false ->
+    pstep s (PGoc k d g out) = (s, mkER None false 1).
+Proof.
+  intros s k d g out e u Hk Hn Hf He. cbn [pstep]. unfold ep_goc. now rewrite Hk, Hn, Hf, He.
+Qed.
+
+(* while the endpoint of a key is alive, a call for the key returns it and dials nothing *)
+Lemma C13_endpoint_stable_proof :
+  forall s k d g out e u,
+    p_pool s k = Some e -> nth_error (p_eps s) e = Some u -> u_failed u = false -> stale s u = false ->
+    let r := pstep s (PGoc k d g out) in
+    snd r = mkER (Some e) false 0 /\ p_dials (fst r) = p_dials s /\ p_pool (fst r) = p_pool s.
+Proof.
+  intros s k d g out e u Hk Hn Hf Hst. cbn [pstep]. unfold ep_goc. rewrite Hk, Hn, Hf, Hst.
+  unfold ep_reuse. cbn [fst snd]. split; [reflexivity|].
+  destruct (adopt_core_eps (set_ep s e (u_with_exp u (p_now s + nat_timeout))) e g) as (P&D&_). rewrite P, D. split; reflexivity.
+Qed.
+
+(* a first use dials exactly once (or not at all when no dialer is available) *)
+Lemma C13_single_dial_proof :
+  forall s o, p_dials (fst (pstep s o)) <= S (p_dials s).
+Proof.
+  intros s o.
+  assert (Hc : forall s k d g out, p_dials (fst (ep_create s k d g out)) <= S (p_dials s)).
+  { intros s0 k d g out. unfold ep_create. destruct out as [|[|[|n]]]; cbn; lia. }
+  assert (Hcl : forall s e, p_dials (ep_close s e) = p_dials s).
+  { intros s0 e. unfold ep_close. destruct (nth_error (p_eps s0) e) as [u|]; auto. destruct (u_closed u); auto.
+    destruct (close_tail_core s0 u) as (_&_&_&_&D&_). unfold set_ep, set_eps. cbn [p_dials]. exact D. }
+  assert (Hrt : forall s e, p_dials (ep_retire s e) = p_dials s).
+  { intros s0 e. unfold ep_retire. destruct (nth_error (p_eps s0) e) as [u|]; auto. rewrite Hcl.
+    destruct (opt_is _ e); reflexivity. }
+  assert (Hfold : forall (f : pstate -> nat -> pstate), (forall s e, p_dials (f s e) = p_dials s) ->
+                  forall l s, p_dials (fold_left f l s) = p_dials s).
+  { intros f Hf l. induction l as [|x r IH]; intros s0; cbn; auto. now rewrite IH, Hf. }
+  destruct o as [k d g out|h out|h t|d| | |dt]; cbn [pstep].
+  - unfold ep_goc.
+    destruct (p_pool s k) as [e0|]; [|apply Hc].
+    destruct (nth_error (p_eps s) e0) as [u|]; [|apply Hc].
+    assert (Hr : p_dials (fst (ep_create (ep_close (set_pool s (fset (p_pool s) k None)) e0) k d g out)) <= S (p_dials s)).
+    { etransitivity; [apply Hc|]. rewrite Hcl. cbn. lia. }
+    assert (Hu : p_dials (fst (ep_reuse s e0 g u)) <= S (p_dials s)).
+    { unfold ep_reuse. cbn [fst]. destruct (adopt_core_eps (set_ep s e0 (u_with_exp u (p_now s + nat_timeout))) e0 g) as (_&D&_).
+      rewrite D. cbn. lia. }
+    destruct (u_failed u).
+    + destruct (is_expired u (p_now s)); [exact Hr|cbn; lia].
+    + destruct (stale s u); [exact Hr|exact Hu].
+  - destruct (nth_error (p_handles s) h) as [e|]; [|cbn; lia].
+    destruct (nth_error (p_eps s) e) as [u|]; [|cbn; lia].
+    destruct (u_dead u); [cbn; lia|]. destruct ((0 <? u_conn_closes u) || (out =? 1)); cbn [fst]; [rewrite Hrt|]; cbn; lia.
+  - destruct (nth_error (p_handles s) h) as [e|]; [|cbn; lia].
+    destruct (nth_error (p_eps s) e) as [u|]; [|cbn; lia].
+    destruct (u_cs_closed u); cbn; lia.
+  - cbn [fst]. rewrite Hfold; [cbn; lia|].
+    intros s0 e. destruct (nth_error (p_eps s0) e) as [u|]; auto.
+    destruct (u_registered u && (u_dialer u =? d) && negb (survives u)); auto.
+  - cbn [fst p_dials]. rewrite Hfold; [lia|].
+    intros s0 e. destruct (nth_error (p_eps s0) e) as [u|]; auto.
+    destruct (opt_is (p_pool s0 (u_key u)) e); auto. now rewrite Hcl.
+  - cbn [fst]. rewrite Hfold; [lia|].
+    intros s0 e. destruct (nth_error (p_eps s0) e) as [u|]; auto.
+    destruct (opt_is (p_pool s0 (u_key u)) e && _); auto. now rewrite Hcl.
+  - cbn; lia.
+Qed.
